@@ -52,7 +52,7 @@ class CondensedReactionGraph(MolGraph):
             return color_refine_hash_crg(self)
 
     def __eq__(self, other: object) -> bool:
-        if not isinstance(other, self.__class__):
+        if other.__class__ is not self.__class__:
             return NotImplemented
         if self.n_atoms == 0 or other.n_atoms == 0:
             return self.n_atoms == other.n_atoms
